@@ -308,7 +308,7 @@ def _check_behaviours(ctx, behs, outs, expected, label, nregs):
 
 
 def _prod_ref_unit(args):
-    name, params, behs = args
+    name, params, behs, B1v, B2v = args
     ref = RefCurve(*params)
     out = []
     for acts in behs:
@@ -317,7 +317,7 @@ def _prod_ref_unit(args):
             if st["a"]["op"] == "setblind":
                 row.append(None)
                 continue
-            s = drv.poly_eval(st["sc"], B1_PROD, B2_PROD) % ref.n
+            s = drv.poly_eval(st["sc"], B1v, B2v) % ref.n
             pt = ref.mul(s, ref.G)
             row.append(list(pt))
         out.append(row)
@@ -327,7 +327,7 @@ def _prod_ref_unit(args):
 def _prod_ref_walk(args):
     """the reference as a register machine of its own (path-dependent), to be compared with the
     path-independent eval(poly)*G: checks the polynomial book-keeping on the production curves too"""
-    name, params, behs, nregs = args
+    name, params, behs, nregs, B1v, B2v = args
     ref = RefCurve(*params)
     bad = 0
     for acts in behs:
@@ -335,7 +335,7 @@ def _prod_ref_walk(args):
         for st in acts:
             a = st["a"]
             op = a["op"]
-            k = a["m"] * ref.n + drv.poly_eval(a["f"], B1_PROD, B2_PROD)
+            k = a["m"] * ref.n + drv.poly_eval(a["f"], B1v, B2v)
             if op == "setblind":
                 continue
             if op in ("load", "genraw", "genblind"):
@@ -351,7 +351,7 @@ def _prod_ref_walk(args):
             else:
                 r = ()
             R[a["dst"]] = r
-            s = drv.poly_eval(st["sc"], B1_PROD, B2_PROD) % ref.n
+            s = drv.poly_eval(st["sc"], B1v, B2v) % ref.n
             if r != ref.mul(s, ref.G):
                 bad += 1
     return bad
@@ -577,6 +577,15 @@ def run(ctx):
         behs = [x["acts"] for x in r.records if x.get("k") == "beh"]
         ctx.sample({"register_behaviour": behs[0][:5]})
         _production(ctx, behs, 4)
+        # the same behaviours on user-constructed curves wider than 256 bits (generic pure-Python Generator)
+        _production(ctx, behs[:6] if q else behs[:60], 4, WIDE_BACKENDS, B1_WIDE + 12345, B2_WIDE - 1, "random behaviours, wide curves", per=1 if q else 3)
+        # 4c. scalar classes, enumerated by TLC (MC_ECScalarClasses): b1 = 2^256, b2 = 2^300 on every curve
+        ctx.tlc("MC_ECScalarClasses", "MC_ECScalarClasses_p43", workers=2, timeout=600)
+        r = ctx.tlc("MC_ECScalarClasses", "MC_ECScalarClasses", workers=2, timeout=600)
+        cbehs = sorted((x["acts"] for x in r.records if x.get("k") == "beh"), key=lambda a: json.dumps(a, sort_keys=True))
+        if len(cbehs) < 100:
+            raise MachineryError("scalar-class enumeration printed %d behaviours" % len(cbehs))
+        _production(ctx, cbehs, 2, WIDE_BACKENDS + (BACKENDS[1:2] if q else BACKENDS), B1_WIDE, B2_WIDE, "scalar classes across 2^256", per=9)
 
     # ---- 5. traces
     if _stage(ctx, "traces"):
@@ -629,31 +638,50 @@ def run(ctx):
     ctx.extra["exhaustive_within"] = "every point / pair / triple / table entry of the toy curves named in tlc_runs; sampled on 256-bit and 381-bit curves (L1)"
 
 
-def _production(ctx, behs, nregs):
+B1_WIDE, B2_WIDE = 1 << 256, 1 << 300      # concretization of the symbols for MC_ECScalarClasses (and the wide curves)
+BACKENDS = [("secp256k1", "python"), ("secp256k1", ""), ("secp256r1", "python"), ("secp256r1", ""), ("bls12_381_g1", "python")]
+WIDE_BACKENDS = [("secp384r1", "python"), ("secp521r1", "python")]
+
+
+def _curve_params():
     from pycoin.ecdsa import secp256k1 as k1, secp256r1 as r1, bls12_381_g1 as bls
     params = {
         "secp256k1": (k1._p, k1._a, k1._b, (k1._Gx, k1._Gy), k1._r),
         "secp256r1": (r1._p, r1._a, r1._b, (r1._Gx, r1._Gy), r1._r),
         "bls12_381_g1": (bls._p, bls._a, bls._b, (bls._Gx, bls._Gy), bls._r),
     }
-    chunks = [behs[i:i + 3] for i in range(0, len(behs), 3)]
+    for name, pr in drv.WIDE_CURVES.items():
+        p, a, b, G, n = pr
+        ref = RefCurve(p, a, b, G, 1 << 600)       # modulus of the scalar deliberately too large: no reduction
+        if p % 4 != 3 or not ref.on_curve(G) or ref.mul(n, G) != () or pow(2, n - 1, n) != 1 or pow(3, n - 1, n) != 1:
+            raise MachineryError("parameters of %s in vf/drv/ec.py are not a prime-order curve with p = 3 mod 4" % name)
+        params[name] = pr
+    return params
+
+
+def _production(ctx, behs, nregs, backends=None, B1v=None, B2v=None, what="random behaviours", per=3):
+    backends = backends or BACKENDS
+    B1v = B1_PROD if B1v is None else B1v
+    B2v = B2_PROD if B2v is None else B2v
+    allparams = _curve_params()
+    params = {name: allparams[name] for name, _ in backends}
+    chunks = [behs[i:i + per] for i in range(0, len(behs), per)]
     # expectation eval(poly)*G from the reference; and the reference walking the program step by step
     exp = {}
     for name, pr in params.items():
-        rows = pmap(_prod_ref_unit, [(name, pr, ch) for ch in chunks], chunk=1)
+        rows = pmap(_prod_ref_unit, [(name, pr, ch, B1v, B2v) for ch in chunks], chunk=1)
         exp[name] = [row for ch in rows for row in ch]
-        bad = sum(pmap(_prod_ref_walk, [(name, pr, ch, nregs) for ch in chunks], chunk=1))
+        bad = sum(pmap(_prod_ref_walk, [(name, pr, ch, nregs, B1v, B2v) for ch in chunks], chunk=1))
         if bad:
             raise MachineryError("reference register walk disagrees with the polynomial value in %d steps on %s "
                                  "(polynomial book-keeping of ECRegs.tla or vf/refec.py is wrong)" % (bad, name))
-    backends = [("secp256k1", "python"), ("secp256k1", ""), ("secp256r1", "python"), ("secp256r1", ""), ("bls12_381_g1", "python")]
     jobs = []
     for name, native in backends:
         for ci, ch in enumerate(chunks):
-            off = ci * 3
+            off = ci * per
             e = [[None if v is None else [hex(t) for t in v] for v in row] for row in exp[name][off:off + len(ch)]]
             jobs.append((name, native, off, ch, {"what": "regs", "curve": name, "behs": ch, "nregs": nregs,
-                                                 "B1": hex(B1_PROD), "B2": hex(B2_PROD), "expected": e}))
+                                                 "B1": hex(B1v), "B2": hex(B2v), "expected": e}))
     running, results = [], []
     seen_backend = {}
     it = iter(jobs)
@@ -682,11 +710,11 @@ def _production(ctx, behs, nregs):
     ctx.action("replay.regs_production", total)
     for acts in behs:
         ctx.case(("pbeh", hashlib.blake2b(json.dumps(acts, sort_keys=True).encode(), digest_size=8).hexdigest()), 0)
-    ctx.extra["backends_exercised"] = sorted("%s:%s" % (k[0], v) for k, v in seen_backend.items())
-    if "openssl" not in seen_backend.values():
+    ctx.extra["backends_exercised"] = sorted(set(ctx.extra.get("backends_exercised", [])) | {"%s:%s" % (k[0], v) for k, v in seen_backend.items()})
+    if "openssl" not in seen_backend.values() and any(n == "" for _, n in backends):
         ctx.assumptions.append("libcrypto not loadable here: the OpenSSL backend was NOT exercised")
-    ctx.log("register machine, production curves: %d behaviours x %s: %d steps, every backend equal to eval(poly)*G of the reference" % (
-        len(behs), sorted(set(ctx.extra["backends_exercised"])), total))
+    ctx.log("register machine, %s: %d behaviours x %s: %d steps, every backend equal to eval(poly)*G of the reference" % (
+        what, len(behs), sorted("%s:%s" % (k[0], v) for k, v in seen_backend.items()), total))
 
 
 # ----------------------------------------------------------------------------- single-case replay
